@@ -104,6 +104,13 @@ SPECIALS = [
     "RP --- 01:145038 18:006402 --:------ 1260 003 007FFF",
     " I --- 01:145038 --:------ 01:145038 2E04 008 07FFFFFFFFFFFF00",
     " I --- 32:155617 --:------ 32:155617 31DA 029 00EF007FFFEFEF7FFF7FFF7FFF7FFFF000EF0100007FFF0000EFEF7FFF7FFF",
+    # schedule traffic without a fragment: the controller's ack of a written fragment (ours, an RFG100's), the 'no such fragment' forms
+    " I --- 01:145038 18:006402 --:------ 0404 007 01200008290105",
+    " I --- 01:145038 30:082155 --:------ 0404 007 00200008290303",
+    " I --- 01:145038 18:006402 --:------ 0404 007 00230008290101",
+    "RP --- 01:145038 18:006402 --:------ 0404 007 002000080001FF",
+    "RP --- 01:145038 18:006402 --:------ 0404 007 00200008000100",
+    " W --- 18:006402 01:145038 --:------ 0404 048 0120000829010568816DCEB10D80300C44D1EFEBDFA33C0E8E8B0D05DB0D0DC1B5B1B1B1B1B1B1B1B1B1B1B1B1",
 ]
 
 
